@@ -160,3 +160,10 @@ package transport
 //@ func transport.Implementation.Read
 //@   trusted
 //@   pure
+
+// chunk: ghost output of Transport.Read - the bytes it handed to the channel's reader loop
+//@ ghost chunk []byte
+//@ func (*Transport).Read [C01]
+//@   modifies chunk
+//@   at return set chunk = result.0
+//@   ensures #chunk-is-what-was-read result.0 == chunk
